@@ -94,6 +94,7 @@ class Turns:
         self.remaining = {t: len(p) for t, p in enumerate(progs)}
         self.builder = None
         self.free = False
+        self.stalled_on = None
 
     def wait_turn(self, tid, act):
         """Block until it is `tid`'s slot.  Returns True if the action is observed (inside the schedule)."""
@@ -114,7 +115,10 @@ class Turns:
                     self.pos += 1              # a finished thread's slot is wasted
                     self.cv.notify_all()
                     continue
-                if not self.cv.wait(timeout=20):
+                if not self.cv.wait(timeout=8):
+                    # the thread whose slot it is did not finish its action: something it needs is held by another thread
+                    # (which is itself waiting for its turn) — the schedule is abandoned, everybody runs freely
+                    self.stalled_on = (cur, self.pos)
                     self.free = True
                     self.cv.notify_all()
                     return False
@@ -125,6 +129,9 @@ class Turns:
             if observed and not self.free:
                 self.pos += 1
             self.cv.notify_all()
+
+
+LAST_STALL = [None]     # (thread, schedule position) whose action did not return in the last run, if any
 
 
 def classify(v):
@@ -252,6 +259,7 @@ def run(sc):
     with T.cv:
         T.free = True
         T.cv.notify_all()
+    LAST_STALL[0] = T.stalled_on
     return obs, errors, hung
 
 
